@@ -1,4 +1,235 @@
 import PeptVerif.Model.Proto
-/-! driver for C04 (placeholder: replies bad-op to everything until the model is written) -/
-def step (_line : String) : String := "bad-op"
-def main : IO Unit := Proto.runDriver step
+import PeptVerif.Model.Fragment
+/-! driver for C04: `fragment`, `Fragmenter.fragment`, `get_losses`, `get_number`, `get_label`, span lists, `slice`,
+ion-type classification.  Rationals travel as `num/den` (requests) and as decimals with 12 places (replies). -/
+open Proto Fragment Pept
+
+def parseRat? (s : String) : Option Rat :=
+  match s.splitOn "/" with
+  | [a] => a.toInt?.map fun i => (i : Rat)
+  | [a, b] => do
+    let i ← a.toInt?
+    let d ← b.toNat?
+    if d = 0 then none else pure (mkRat i d)
+  | _ => none
+
+def parseRatList? (s : String) : Option (List Rat) :=
+  if s.isEmpty then some [] else (s.splitOn ",").mapM parseRat?
+
+/-- decimal text with 12 places, rounded half up on the absolute value -/
+def showRat (q : Rat) : String :=
+  let neg := decide (q < 0)
+  let a : Rat := if neg then -q else q
+  let scaled : Int := (a * ((10 ^ 12 : Nat) : Rat) + 1 / 2).floor
+  let n := scaled.toNat
+  let ip := n / 10 ^ 12
+  let fp := n % 10 ^ 12
+  let fs := toString fp
+  let pad := String.ofList (List.replicate (12 - fs.length) '0')
+  (if neg && n != 0 then "-" else "") ++ toString ip ++ "." ++ pad ++ fs
+
+def ionOfName (s : String) : Ion :=
+  match s with
+  | "a" => .A | "b" => .B | "c" => .C | "x" => .X | "y" => .Y | "z" => .Z
+  | "ax" => .AX | "ay" => .AY | "az" => .AZ | "bx" => .BX | "by" => .BY | "bz" => .BZ
+  | "cx" => .CX | "cy" => .CY | "cz" => .CZ | "i" => .I
+  | _ => .other s.toList
+
+def ionName (t : Ion) : String := String.ofList t.name
+
+/-- `S:x` scalar, `L:x,y` list (`L:` empty) -/
+def parseOneOrMany? {α} (f : String → Option α) (s : String) : Option (OneOrMany α) :=
+  if s.startsWith "S:" then (f (s.drop 2).toString).map .one
+  else if s.startsWith "L:" then
+    let body := (s.drop 2).toString
+    if body.isEmpty then some (.many []) else ((body.splitOn ",").mapM f).map .many
+  else none
+
+/-- `C<chars>` or `O<esc(str)>:<count>,…` -/
+def parsePat? (s : String) : Option Pat :=
+  if s.startsWith "C" then (Wire.unesc (s.drop 1).toString).map .cls
+  else if s.startsWith "O" then
+    let body := (s.drop 1).toString
+    if body.isEmpty then some (.opaque []) else
+      ((body.splitOn ",").mapM fun (e : String) =>
+        match e.splitOn ":" with
+        | [k, v] => do
+          let k ← Wire.unesc k
+          let v ← v.toNat?
+          pure (k, v)
+        | _ => none).map .opaque
+  else none
+
+def parseRule? (s : String) : Option LossRule :=
+  match s.splitOn "=" with
+  | [p, v] => do
+    let p ← parsePat? p
+    let v ← parseRat? v
+    pure (p, v)
+  | _ => none
+
+def parseRules? (s : String) : Option (List LossRule) :=
+  if s.isEmpty then some [] else (s.splitOn ";").mapM parseRule?
+
+/-- `N`, `S:rule`, `L:rule;rule` -/
+def parseLosses? (s : String) : Option (Option (OneOrMany LossRule)) :=
+  if s == "N" then some none
+  else if s.startsWith "S:" then (parseRule? (s.drop 2).toString).map fun r => some (.one r)
+  else if s.startsWith "L:" then (parseRules? (s.drop 2).toString).map fun l => some (.many l)
+  else none
+
+def parseRT? (s : String) : Option RT :=
+  match s with
+  | "fragment" => some .fragment | "mass" => some .mass | "mz" => some .mz | "label" => some .label
+  | "mass-label" => some .massLabel | "mz-label" => some .mzLabel | "other" => some .other
+  | _ => none
+
+/-- `proton,neutron,fragAdjN;name:fragAdj:ionOffset;…` (the tables of the requested mass mode) -/
+def parseParams? (s : String) : Option MassParams :=
+  match s.splitOn ";" with
+  | [] => none
+  | hd :: rest => do
+    let hd ← parseRatList? hd
+    match hd with
+    | [p, n, an] =>
+      let rows ← rest.mapM fun (r : String) =>
+        match r.splitOn ":" with
+        | [nm, fa, io] => do
+          let fa ← parseRat? fa
+          let io ← parseRat? io
+          pure (ionOfName nm, fa, io)
+        | _ => none
+      let look (sel : Rat × Rat → Rat) (t : Ion) : Rat :=
+        match rows.find? (fun r => r.1 = t) with
+        | some r => sel r.2
+        | none => 0
+      pure { proton := p, neutron := n, fragAdjN := fun _ => an,
+             fragAdj := fun _ t => look (·.1) t, ionOffset := fun _ t => look (·.2) t }
+    | _ => none
+
+/-- `ion:charge:rat;…` -/
+def parseShifts? (s : String) : Option (List (Ion × Int × Rat)) :=
+  if s.isEmpty then some [] else
+    (s.splitOn ";").mapM fun (r : String) =>
+      match r.splitOn ":" with
+      | [t, c, v] => do
+        let c ← c.toInt?
+        let v ← parseRat? v
+        pure (ionOfName t, c, v)
+      | _ => none
+
+def showAnn (a : Annotation) : String := Wire.esc (Wire.showAnnotation a).toList
+
+def showFrag (f : Frag) : String :=
+  ",".intercalate [ionName f.ion, toString f.start, toString f.stop, toString f.charge, toString f.isotope,
+    showRat f.loss, showRat f.mass, showRat f.neutralMass, showRat f.mz, (if f.internal then "1" else "0"),
+    (if f.monoisotopic then "1" else "0"), showAnn f.sequence, Wire.esc f.unmodSequence]
+
+def showOut : Out → String
+  | .frag f => showFrag f
+  | .num x => showRat x
+  | .label l => String.ofList l
+  | .numLabel x l => showRat x ++ ":" ++ String.ofList l
+
+def showErr : Err → String
+  | .valueError => "ERR:ValueError"
+
+def showResult (parent : Annotation) : Except Err (List Out) → String
+  | .error e => showErr e
+  | .ok l =>
+    let bad := l.any fun o => match o with
+      | .frag f => f.parent != parent
+      | _ => false
+    if bad then "PARENT-MISMATCH" else showAnn parent ++ "#" ++ ";".intercalate (l.map showOut)
+
+def showSpans (l : List Spans.Span) : String :=
+  ";".intercalate (l.map fun s => toString s.1 ++ ":" ++ toString s.2.1 ++ ":" ++ toString s.2.2)
+
+def step (line : String) : String :=
+  match splitTab line with
+  | [op, ann, ions, charges, mono, isos, water, ammonia, losses, maxl, rt, prec, comps, split, params, shifts, cond] =>
+    if op != "fragment" && op != "fragmenter" then "bad-op" else
+    match Wire.parseAnnotation? cond with
+    | none => "bad-op"
+    | some cond =>
+    match Wire.parseAnnotation? ann, parseOneOrMany? (fun s => some (ionOfName s)) ions,
+        parseOneOrMany? String.toInt? charges, parseBool? mono, parseOneOrMany? String.toInt? isos,
+        parseBool? water, parseBool? ammonia, parseLosses? losses with
+    | some a, some ions, some charges, some mono, some isos, some water, some ammonia, some losses =>
+      match parseInt? maxl, parseRT? rt, parseOptInt? prec, parseRatList? split, parseParams? params,
+          parseShifts? shifts with
+      | some maxl, some rt, some prec, some split, some P, some shifts =>
+        let env : Env := { P := P, splitMass := fun _ _ => split, showLoss := fun q => (showRat q).toList,
+                           condenseStatic := fun _ => cond,
+                           labelShift := fun _ _ t c => match shifts.find? (fun r => r.1 = t && r.2.1 = c) with
+                             | some r => r.2.2
+                             | none => 0 }
+        let args : Args := { ionTypes := ions, charges := charges, monoisotopic := mono, isotopes := isos,
+                             waterLoss := water, ammoniaLoss := ammonia, losses := losses, maxLosses := maxl,
+                             returnType := rt, precision := prec }
+        if op == "fragmenter" then
+          if comps != "None" then "bad-op" else
+          showResult cond ((Fragmenter.new env a mono).fragment args)
+        else
+          let mc : Option (Option (List Rat)) :=
+            if comps == "None" then some none else (parseRatList? comps).map some
+          match mc with
+          | some mc => showResult cond (fragment env a args mc)
+          | none => "bad-op"
+      | _, _, _, _, _, _ => "bad-op"
+    | _, _, _, _, _, _, _, _ => "bad-op"
+  | ["losses", sq, rules, maxl] =>
+    match Wire.unesc sq, parseRules? rules, parseInt? maxl with
+    | some sq, some rules, some maxl => ",".intercalate ((getLosses sq rules maxl).map showRat)
+    | _, _, _ => "bad-op"
+  | ["number", ion, len, s, e] =>
+    match parseInt? len, parseInt? s, parseInt? e with
+    | some len, some s, some e =>
+      match getNumber (ionOfName ion) len s e with
+      | .ok n => String.ofList n.text
+      | .error er => showErr er
+    | _, _, _ => "bad-op"
+  | ["label", ion, charge, num, loss, iso] =>
+    match parseInt? charge, parseRat? loss, parseInt? iso with
+    | some charge, some loss, some iso =>
+      let number : Option Number :=
+        match num.splitOn "~" with
+        | [a] => a.toInt?.map .int
+        | [a, b] => do
+          let a ← a.toInt?
+          let b ← b.toInt?
+          pure (.pair a b)
+        | _ => none
+      match number with
+      | some n => String.ofList (getLabel (fun q => (showRat q).toList) (ionOfName ion) charge n loss iso)
+      | none => "bad-op"
+    | _, _, _ => "bad-op"
+  | ["spans", kind, n] =>
+    match parseInt? n with
+    | some n =>
+      match kind with
+      | "forward" => showSpans (forwardSpans n)
+      | "backward" => showSpans (backwardSpans n)
+      | "internal" => showSpans (internalSpans n)
+      | "immonium" => showSpans (immoniumSpans n)
+      | _ => "bad-op"
+    | none => "bad-op"
+  | ["slice", ann, s, e] =>
+    match Wire.parseAnnotation? ann, parseInt? s, parseInt? e with
+    | some a, some s, some e => showAnn (slice a s e)
+    | _, _, _ => "bad-op"
+  | ["classify", ion] =>
+    let t := ionOfName ion
+    let b (x : Bool) : String := if x then "1" else "0"
+    b t.isForward ++ b t.isBackward ++ b t.isInternal ++ b t.isTerminal ++ b (decide (t = Ion.I))
+  | ["round", x, p] =>
+    match parseRat? x, parseInt? p with
+    | some x, some p => showRat (pyRound x p)
+    | _, _ => "bad-op"
+  | ["consts"] => showRat waterLossValue ++ "," ++ showRat ammoniaLossValue ++ "," ++
+      (match waterPat, ammoniaPat with
+       | .cls a, .cls b => String.ofList a ++ "," ++ String.ofList b
+       | _, _ => "?")
+  | _ => "bad-op"
+
+def main : IO Unit := runDriver step
